@@ -71,14 +71,21 @@ theorem quiescent_good {spec Good} (hs : SeqOK spec Good) (o : AvObj) (ho : Good
 
 /-! ## Instantiation with the C02 cache invariant: the statements about the real `Av` model -/
 
-/-- **C07 for `Av`**: threads sharing a freshly created class with any valid basis (classical or
-    mesh), any assignment of levels, any schedule: no thread fails and every level read is the
+/-- **C07 for `Av`**: threads sharing a freshly created class with any basis `Av` accepts (`ValidBasisV`:
+    `ValidBasis` for a classical basis, `True` for a mesh basis), any assignment of levels, any schedule: no thread fails and every level read is the
     specification's level `Spec.C02.level` / `Spec.C02.meshLevel` (as a list up to order) -/
 theorem av_concurrent_correct (B : BasisV) (hB : C02L.ValidBasisV B) (todos : List (List Nat))
     (sched : List Nat) (tid : Nat) (t : Thread)
     (ht : (run (initSys (freshObj B) todos) sched).threads[tid]? = some t) :
     (∀ e, t.phase ≠ .failed e) ∧ ∀ g ∈ t.got, g.2.Perm (C02L.specLevel B g.1) :=
-  concurrent_correct (C02L.seqOK B) (freshObj B) ⟨C02L.ObjInv.fresh hB, rfl⟩ todos sched tid t ht
+  concurrent_correct (C02L.seqOK B) (freshObj B) ⟨C02L.ObjInv.fresh hB, C02L.freshObj_basis B⟩ todos sched tid t ht
+
+/-- `av_concurrent_correct` for a mesh basis: every list of mesh patterns, no hypothesis -/
+theorem av_concurrent_correct_mesh (M : List Mesh) (todos : List (List Nat))
+    (sched : List Nat) (tid : Nat) (t : Thread)
+    (ht : (run (initSys (freshObj (.mesh M)) todos) sched).threads[tid]? = some t) :
+    (∀ e, t.phase ≠ .failed e) ∧ ∀ g ∈ t.got, g.2.Perm (Spec.C02.meshLevel M g.1) :=
+  av_concurrent_correct (.mesh M) trivial todos sched tid t ht
 
 /-- the same from any sequentially reachable (invariant-satisfying) state of the class, e.g. after
     arbitrary earlier single-threaded queries -/
